@@ -104,6 +104,53 @@ func Check(v any) error {
 		}
 	}
 
+	// Check the names of the attributes and relationships
+	//
+	// The name of a field is its json tag. The fields are stored and
+	// looked up by that name, so it cannot be empty, it cannot be "id"
+	// (which always refers to the ID field) and it cannot be used twice.
+	names := map[string]bool{}
+
+	// The ID field is found by its json tag as well when fields are read
+	// and written, so its tag is taken.
+	if name := idField.Tag.Get("json"); name != "" {
+		names[name] = true
+	}
+
+	for i := 0; i < value.NumField(); i++ {
+		sf := value.Type().Field(i)
+		apiTag := sf.Tag.Get("api")
+
+		if apiTag != "attr" && !strings.HasPrefix(apiTag, "rel,") {
+			continue
+		}
+
+		name := sf.Tag.Get("json")
+
+		switch {
+		case name == "":
+			return fmt.Errorf(
+				"jsonapi: field %q of type %q has no json tag",
+				sf.Name,
+				resType,
+			)
+		case name == "id":
+			return fmt.Errorf(
+				"jsonapi: field %q of type %q cannot be named \"id\"",
+				sf.Name,
+				resType,
+			)
+		case names[name]:
+			return fmt.Errorf(
+				"jsonapi: name %q is used by more than one field of type %q",
+				name,
+				resType,
+			)
+		}
+
+		names[name] = true
+	}
+
 	return nil
 }
 
